@@ -2429,6 +2429,10 @@ pub struct DirWorld {
     /// canonical order: (name, cookie, type)
     pub canon: Vec<(Vec<u8>, u64, u32)>,
     pub pseudo: bool,
+    /// offsets read so far on each open handle (in order), for the host-descriptor comparison below
+    pub hist: BTreeMap<u64, Vec<u64>>,
+    /// empty replies that a host descriptor driven through the same seeks gives as well (not judged)
+    pub host_same: u64,
 }
 
 impl DirWorld {
@@ -2456,7 +2460,7 @@ impl DirWorld {
             host.insert(name.as_bytes().to_vec(), t as u32);
         }
         let node = cl.lookup(&w.subj, 1, b"big").map(|e| e.nodeid).unwrap_or(0);
-        DirWorld { w, node, host, problems: Vec::new(), canon: Vec::new(), pseudo: false }
+        DirWorld { w, node, host, problems: Vec::new(), canon: Vec::new(), pseudo: false, hist: BTreeMap::new(), host_same: 0 }
     }
 
     /// A Vfs whose root is a pseudo directory with `k` mount points.
@@ -2480,7 +2484,7 @@ impl DirWorld {
         w.vfs = Some(vfs);
         w.fs = None;
         let _ = cl.init(&w.subj, crate::ptworld::CAPABLE_ALL);
-        DirWorld { w, node: 1, host, problems: Vec::new(), canon: Vec::new(), pseudo: true }
+        DirWorld { w, node: 1, host, problems: Vec::new(), canon: Vec::new(), pseudo: true, hist: BTreeMap::new(), host_same: 0 }
     }
 
     fn bad(&mut self, class: &str, msg: String) {
@@ -2492,7 +2496,10 @@ impl DirWorld {
             return Some(0);
         }
         match cl.opendir(&self.w.subj, self.node, 0) {
-            Ok((fh, _)) => Some(fh),
+            Ok((fh, _)) => {
+                self.hist.remove(&fh);
+                Some(fh)
+            }
             Err(e) => {
                 self.bad("opendir-failed", format!("errno {}", e));
                 None
@@ -2568,6 +2575,12 @@ impl DirWorld {
     /// canonical order, non-empty when the next entry fits, never more than `size`.
     pub fn read_and_check(&mut self, cl: &mut Client, fh: u64, off: u64, size: u32, plus: bool, what: &str) -> Option<u64> {
         let start = if off == 0 { 0 } else { self.canon.iter().position(|c| c.1 == off).map(|p| p + 1)? };
+        let zero = self.w.zero_message_opendir() && !self.pseudo;
+        if zero {
+            // every READDIR works on a descriptor of its own
+            self.hist.remove(&fh);
+        }
+        self.hist.entry(fh).or_default().push(off);
         let r = cl.readdir(&self.w.subj, self.node, fh, off, size, plus);
         let ents = match r {
             Ok(v) => v,
@@ -2601,7 +2614,12 @@ impl DirWorld {
         }
         if ents.is_empty() {
             if let Some(next) = rest.first() {
-                if fuse_reclen(next.0.len(), plus) <= size as usize {
+                if fuse_reclen(next.0.len(), plus) <= size as usize && self.host_descriptor_is_empty_too(fh) {
+                    // The host's own lseek/getdents64 on a descriptor with the same history returns nothing here
+                    // (ext4 on this kernel: a never-read descriptor that is first read at the end-of-directory cookie
+                    // answers the following read at offset 0 with nothing). The reply is what the host call yields.
+                    self.host_same += 1;
+                } else if fuse_reclen(next.0.len(), plus) <= size as usize {
                     self.bad(
                         &format!("{}/premature-end", what),
                         format!("empty reply at offset {} with size {} (plus {}), but {} entries remain and the next one ({:?}) needs {} bytes", off, size, plus, rest.len(), String::from_utf8_lossy(&next.0), fuse_reclen(next.0.len(), plus)),
@@ -2610,6 +2628,43 @@ impl DirWorld {
             }
         }
         Some(ents.last().map(|d| d.off).unwrap_or(off))
+    }
+
+    /// Drives a fresh host descriptor of the listed directory through the offsets read so far on `fh` (lseek +
+    /// getdents64 each, as the passthrough does); true if the last call yields no entry other than "." and "..".
+    fn host_descriptor_is_empty_too(&self, fh: u64) -> bool {
+        if self.pseudo {
+            return false;
+        }
+        let Some(h) = self.hist.get(&fh) else { return false };
+        let dir = self.w.exp.join("big");
+        let Ok(cpath) = std::ffi::CString::new(dir.to_string_lossy().as_bytes()) else { return false };
+        let fd = unsafe { libc::open(cpath.as_ptr(), libc::O_RDONLY | libc::O_DIRECTORY | libc::O_CLOEXEC) };
+        if fd < 0 {
+            return false;
+        }
+        let mut buf = vec![0u8; 1 << 16];
+        let mut last_has_entries = true;
+        for off in h {
+            let r = unsafe { libc::lseek64(fd, *off as i64, libc::SEEK_SET) };
+            if r < 0 {
+                unsafe { libc::close(fd) };
+                return false;
+            }
+            let n = unsafe { libc::syscall(libc::SYS_getdents64, fd, buf.as_mut_ptr(), buf.len()) };
+            last_has_entries = false;
+            let mut p = 0usize;
+            while n > 0 && p + 19 <= n as usize {
+                let reclen = u16::from_ne_bytes([buf[p + 16], buf[p + 17]]) as usize;
+                let name: Vec<u8> = buf[p + 19..p + reclen].iter().cloned().take_while(|b| *b != 0).collect();
+                if name != b"." && name != b".." {
+                    last_has_entries = true;
+                }
+                p += reclen.max(19);
+            }
+        }
+        unsafe { libc::close(fd) };
+        !last_has_entries
     }
 
     /// sequential pass with a fixed size on a fresh handle
@@ -2686,6 +2741,7 @@ impl<'a> SeqRun<'a> {
         }
         self.rep.eval();
         self.rep.transitions += self.cl.nreq - n0;
+        self.rep.add("sum_empty_replies_the_host_descriptor_gives_too", dw.host_same);
         self.rep.outcome(&format!("small:n{}:{}:{}", n, if plus { "plus" } else { "plain" }, if dw.problems.is_empty() { "ok" } else { "VIOLATION" }));
         self.rep.state_of(&(cfg.label(), n, plus, format!("{:?}", seq)));
         self.rep.sample(|| json!({"config": cfg.label(), "entries": n, "plus": plus, "sequence": format!("{:?}", seq)}));
@@ -2787,6 +2843,7 @@ impl<'a> SeqRun<'a> {
         }
         self.rep.eval();
         self.rep.transitions += self.cl.nreq - n0;
+        self.rep.add("sum_empty_replies_the_host_descriptor_gives_too", dw.host_same);
         self.rep.outcome(&format!("big:n{}:{}", dw.host.len(), if dw.problems.is_empty() { "ok" } else { "VIOLATION" }));
         self.rep.state_of(&(cfg.label(), n, uniform, pseudo_mounts));
         self.rep.sample(|| json!({"config": cfg.label(), "entries": dw.host.len(), "pseudo_mounts": pseudo_mounts, "canonical_first": dw.canon.iter().take(3).map(|c| (String::from_utf8_lossy(&c.0).to_string(), c.1)).collect::<Vec<_>>()}));
